@@ -4,6 +4,7 @@ import (
 	"context"
 	"crypto/ecdsa"
 	"fmt"
+	"sync"
 
 	"github.com/gauss-project/aurorafs/pkg/addressbook"
 	"github.com/gauss-project/aurorafs/pkg/aurora"
@@ -60,8 +61,7 @@ type Kad struct {
 
 // NewKad builds a real (not started) kademlia for base and marks peers as connected.
 func NewKad(base boson.Address, peers ...*Identity) (*Kad, error) {
-	vdb.Register()
-	db, err := shed.NewDB("", vdb.Opts())
+	db, err := metricsDB()
 	if err != nil {
 		return nil, fmt.Errorf("metrics db: %w", err)
 	}
@@ -84,11 +84,24 @@ func NewKad(base boson.Address, peers ...*Identity) (*Kad, error) {
 	return &Kad{Kad: k, Book: book, Light: light, P2P: p, db: db}, nil
 }
 
-// Close releases the kademlia and its metrics db in the background: a kademlia whose
-// manage loop was never started takes 5 s to close.
+// Close releases the kademlia in the background: a kademlia whose manage loop was never
+// started takes 5 s to close.
 func (k *Kad) Close() {
-	go func() {
-		_ = k.Kad.Close()
-		_ = k.db.Close()
-	}()
+	go func() { _ = k.Kad.Close() }()
+}
+
+var (
+	mdbOnce sync.Once
+	mdb     *shed.DB
+	mdbErr  error
+)
+
+// metricsDB is one in-memory shed DB shared by every kademlia of the process (peer
+// metrics only; never closed).
+func metricsDB() (*shed.DB, error) {
+	mdbOnce.Do(func() {
+		vdb.Register()
+		mdb, mdbErr = shed.NewDB("", vdb.Opts())
+	})
+	return mdb, mdbErr
 }
